@@ -211,94 +211,7 @@ func runC17(c *kit.Ctx) {
 
 	// ---- R3 no waitless cycle -------------------------------------------------
 	c.StartRule("R3", "every cycle of every retry loop waits, is bounded, or is a tabled NotServingRegionError cycle", 6)
-	nsre := p.Named("region", "NotServingRegionError")
-	c.Table("C17.R3: a cycle taken only for NotServingRegionError results does not back off (reason: handleResultError marked that region unavailable and started its establisher, so the next getRegionAndClientForRPC blocks on the availability channel; the establisher backs off on this schedule). Precondition re-checked: handleResultError's NotServingRegionError case calls MarkUnavailable on the failed region.")
-	// precondition of the table entry
-	hre := c.Anchor("", "client", "handleResultError")
-	preOK := false
-	if hre != nil && nsre != nil {
-		for _, call := range kit.Calls(hre, hrpcRI+"MarkUnavailable") {
-			if _, ok := typeAssertEdge(call.Block(), nsre); ok {
-				preOK = true
-			}
-		}
-		c.Check(preOK, hre, "nsre-precondition", hre.Pos(), "NotServingRegionError case marks the region unavailable", "handleResultError no longer marks the region unavailable on NotServingRegionError: the tabled waitless cycle would spin")
-	}
-	loops := []struct{ rel, recv, name string }{
-		{"", "client", "SendRPC"}, {"", "client", "SendBatch"}, {"", "client", "lookupRegion"},
-		{"", "client", "lookupAllRegions"}, {"", "client", "establishRegion"}, {"", "client", "checkProcedureWithBackoff"},
-	}
-	for _, l := range loops {
-		fn := c.Anchor(l.rel, l.recv, l.name)
-		if fn == nil {
-			continue
-		}
-		waitBlocks := map[*ssa.BasicBlock]bool{}
-		for _, call := range kit.Calls(fn, sleepName) {
-			waitBlocks[call.Block()] = true
-		}
-		if len(waitBlocks) == 0 {
-			c.Bad(fn, "no-backoff-call", fn.Pos(), "retry loop function contains no call of sleepAndIncreaseBackoff", "")
-			continue
-		}
-		tabledUsed := 0
-		counterUsed := 0
-		removedEdge := func(from, to *ssa.BasicBlock) bool {
-			if kit.BoundedLoopEdge(from, to) {
-				return true
-			}
-			facts := kit.EdgeFacts(from, to)
-			for _, f := range facts {
-				// (b) tabled: NotServingRegionError-only edge
-				if f.Pol && preOK {
-					if ex, ok := f.Cond.(*ssa.Extract); ok && ex.Index == 1 {
-						if ta, ok := ex.Tuple.(*ssa.TypeAssert); ok && ta.CommaOk && nsre != nil && types.Identical(ta.AssertedType, nsre) {
-							tabledUsed++
-							return true
-						}
-					}
-				}
-				if !f.Pol && preOK {
-					if call, ok := f.Cond.(*ssa.Call); ok && strings.HasSuffix(kit.CalleeName(call), ".hasServerError") && nsreOnlyRound(fn, facts) {
-						tabledUsed++
-						return true
-					}
-				}
-			}
-			// (a) counter-bounded: this edge is the false edge of "counter > K"
-			if len(from.Instrs) > 0 {
-				if iff, ok := from.Instrs[len(from.Instrs)-1].(*ssa.If); ok && from.Succs[1] == to && from.Succs[0] != to {
-					if cmp, ok := kit.CanonCmp(iff.Cond, true); ok && cmp.Op == token.GTR && !cmp.Bytes {
-						if k, okk := kit.ConstInt(cmp.Y); okk && k <= 1 {
-							if inc := counterIncrement(cmp.X); inc != nil && waitBlocks[from.Succs[0]] {
-								// every way from this edge back to the test passes the increment
-								e := kit.PathFromBlock(to, kit.PathQuery{
-									Target: func(in ssa.Instruction) bool { return in == ssa.Instruction(iff) },
-									Stop:   func(in ssa.Instruction) bool { return in == inc },
-								})
-								if e == nil {
-									counterUsed++
-									return true
-								}
-							}
-						}
-					}
-				}
-			}
-			return false
-		}
-		cyc := kit.FindCycle(fn, func(b *ssa.BasicBlock) bool { return waitBlocks[b] }, removedEdge)
-		if cyc != nil {
-			var parts []string
-			for _, b := range cyc {
-				parts = append(parts, p.Pos(firstPos(b)))
-			}
-			c.Bad(fn, "waitless-cycle", firstPos(cyc[len(cyc)-1]), "retry loop has a cycle with neither a back-off wait nor a bounded retry counter: attempts against a failing cluster are not separated by waits",
-				"cycle through "+strings.Join(dedup(parts), " -> "))
-		} else {
-			c.OK(fn, "waitless-cycle", fn.Pos(), fmt.Sprintf("no waitless cycle (%d wait blocks removed, %d counter-bounded edges, %d tabled NSRE edges)", len(waitBlocks), counterUsed, tabledUsed))
-		}
-	}
+	retryLoopsWait(c)
 
 	// the connection-level-error cap of SendBatch looks at this round's retry list:
 	// nothing may empty or replace that list between the round's wait and the test
@@ -346,6 +259,64 @@ func runC17(c *kit.Ctx) {
 		}
 	}
 
+	// the batch's "some call was told to retry later" flag is sticky within a round: once a call of
+	// the round has set it, later results of the round cannot clear it
+	if wfc := c.Anchor("", "client", "waitForCompletion"); wfc != nil {
+		kit.Instrs(wfc, func(in ssa.Instruction) {
+			r, ok := in.(*ssa.Return)
+			if !ok || len(r.Results) < 2 {
+				return
+			}
+			set := map[ssa.Value]bool{}
+			var collect func(v ssa.Value)
+			collect = func(v ssa.Value) {
+				v = kit.Strip(v)
+				if ph, ok := v.(*ssa.Phi); ok && !set[ph] {
+					set[ph] = true
+					for _, e := range ph.Edges {
+						collect(e)
+					}
+				}
+			}
+			collect(r.Results[1])
+			why := ""
+			if len(set) == 0 {
+				if k, ok := kit.Strip(r.Results[1]).(*ssa.Const); !ok || k.Value == nil {
+					why = "the flag is not a loop-carried boolean (" + r.Results[1].String() + ")"
+				}
+			}
+			for v := range set {
+				ph := v.(*ssa.Phi)
+				for i, e := range ph.Edges {
+					e = kit.Strip(e)
+					if set[e] {
+						continue
+					}
+					pred := ph.Block().Preds[i]
+					if k, ok := e.(*ssa.Const); ok && k.Value != nil {
+						if k.Value.ExactString() == "true" {
+							continue
+						}
+						last := pred.Instrs[len(pred.Instrs)-1]
+						if !kit.Reaches(last, last) {
+							continue // initial value
+						}
+					}
+					cleared := true
+					for _, f := range kit.FactsAt(pred) {
+						if !f.Pol && set[kit.Strip(f.Cond)] {
+							cleared = false // assigned only where the flag was still false
+						}
+					}
+					if cleared {
+						why = "assigned from " + e.String() + " at " + p.Pos(firstPos(pred)) + " whatever its previous value"
+					}
+				}
+			}
+			c.Check(why == "", wfc, "backoff-flag-sticky", r.Pos(), "the flag only ever goes from false to true during a round", "the flag that makes SendBatch wait before the next round can be cleared by a later result of the same round ("+why+"): a round with a retry-later answer followed by a connection-level or NotServingRegion answer is resent without any wait and the schedule never grows")
+		})
+	}
+
 	// ---- R4 threading ---------------------------------------------------------
 	c.StartRule("R4", "the loop threads the returned back-off and leaves on its error", 8)
 	for _, fn := range p.Funcs {
@@ -372,6 +343,33 @@ func runC17(c *kit.Ctx) {
 					}
 					okArg = false
 					why = "the duration comes from " + leaf.String()
+				}
+				// a constant may only enter from outside the loop: a reset inside the loop restarts
+				// the schedule (and 0 means "do not wait at all")
+				{
+					seenPhi := map[*ssa.Phi]bool{}
+					var walk func(ph *ssa.Phi)
+					walk = func(ph *ssa.Phi) {
+						if seenPhi[ph] {
+							return
+						}
+						seenPhi[ph] = true
+						for i, e := range ph.Edges {
+							e = kit.Strip(e)
+							if inner, ok := e.(*ssa.Phi); ok {
+								walk(inner)
+								continue
+							}
+							if _, isC := durConst(e); isC {
+								pred := ph.Block().Preds[i]
+								if len(pred.Instrs) > 0 && kit.Reaches(call.(ssa.Instruction), pred.Instrs[len(pred.Instrs)-1]) {
+									okArg = false
+									why = "the back-off is reset to a constant inside the retry loop (" + p.Pos(firstPos(pred)) + "): the schedule restarts, and a reset to 0 makes the next wait return at once"
+								}
+							}
+						}
+					}
+					walk(a)
 				}
 				if okArg && !own {
 					okArg = false
@@ -535,4 +533,129 @@ func errLeavesLoopViaStore(errV ssa.Value, call ssa.CallInstruction) bool {
 		}
 	}
 	return false
+}
+
+// retryLoopsWait: every cycle of every retry loop passes the back-off wait (which watches the caller's
+// context), is counter-bounded, or is the tabled NotServingRegionError cycle. Shared by C17.R3 and
+// C13.R7 (a retry cycle without the wait also never observes cancellation).
+func retryLoopsWait(c *kit.Ctx) {
+	p := c.P
+	sleepName := kit.M("", "", "sleepAndIncreaseBackoff")
+	nsre := p.Named("region", "NotServingRegionError")
+	c.Table("C17.R3: a cycle taken only for NotServingRegionError results does not back off (reason: handleResultError marked that region unavailable and started its establisher, so the next getRegionAndClientForRPC blocks on the availability channel; the establisher backs off on this schedule). Precondition re-checked: handleResultError's NotServingRegionError case calls MarkUnavailable on the failed region.")
+	// precondition of the table entry
+	hre := c.Anchor("", "client", "handleResultError")
+	preOK := false
+	if hre != nil && nsre != nil {
+		for _, call := range kit.Calls(hre, hrpcRI+"MarkUnavailable") {
+			if _, ok := typeAssertEdge(call.Block(), nsre); ok {
+				preOK = true
+			}
+		}
+		c.Check(preOK, hre, "nsre-precondition", hre.Pos(), "NotServingRegionError case marks the region unavailable", "handleResultError no longer marks the region unavailable on NotServingRegionError: the tabled waitless cycle would spin")
+	}
+	// second half of the precondition: locating the region always consults its availability channel
+	// before a connection is handed out (also when the region still has its old connection)
+	if gr := c.Anchor("", "client", "getRegionAndClientForRPC"); gr != nil {
+		starts := kit.Calls(gr, kit.M("", "*client", "getRegionForRpc"))
+		if len(starts) == 0 {
+			c.Unk(gr, "nsre-precondition-wait", gr.Pos(), "getRegionAndClientForRPC no longer resolves the region through getRegionForRpc")
+		}
+		for _, s := range starts {
+			e := kit.PathFrom(s.(ssa.Instruction), kit.PathQuery{
+				Target: func(in ssa.Instruction) bool {
+					r, ok := in.(*ssa.Return)
+					if !ok {
+						return false
+					}
+					ev := returnedError(r)
+					return ev != nil && kit.IsNilConst(kit.Root(ev))
+				},
+				Stop: func(in ssa.Instruction) bool {
+					call, ok := in.(*ssa.Call)
+					return ok && kit.CalleeName(call) == hrpcRI+"AvailabilityChan"
+				},
+				IgnorePanics: true,
+			})
+			if e != nil {
+				preOK = false
+			}
+			c.Check(e == nil, gr, "nsre-precondition-wait", s.Pos(), "every successful return passed reg.AvailabilityChan()", "a connection can be handed out for a region without consulting its availability channel: a region marked unavailable after NotServingRegionError that still has its old connection is used at once, and the tabled waitless NotServingRegionError cycle becomes a hot loop: "+c.BlockPath(e))
+		}
+	}
+	loops := []struct{ rel, recv, name string }{
+		{"", "client", "SendRPC"}, {"", "client", "SendBatch"}, {"", "client", "lookupRegion"},
+		{"", "client", "lookupAllRegions"}, {"", "client", "establishRegion"}, {"", "client", "checkProcedureWithBackoff"},
+	}
+	for _, l := range loops {
+		fn := c.Anchor(l.rel, l.recv, l.name)
+		if fn == nil {
+			continue
+		}
+		waitBlocks := map[*ssa.BasicBlock]bool{}
+		for _, call := range kit.Calls(fn, sleepName) {
+			waitBlocks[call.Block()] = true
+		}
+		if len(waitBlocks) == 0 {
+			c.Bad(fn, "no-backoff-call", fn.Pos(), "retry loop function contains no call of sleepAndIncreaseBackoff", "")
+			continue
+		}
+		tabledUsed := 0
+		counterUsed := 0
+		removedEdge := func(from, to *ssa.BasicBlock) bool {
+			if kit.BoundedLoopEdge(from, to) {
+				return true
+			}
+			facts := kit.EdgeFacts(from, to)
+			for _, f := range facts {
+				// (b) tabled: NotServingRegionError-only edge
+				if f.Pol && preOK {
+					if ex, ok := f.Cond.(*ssa.Extract); ok && ex.Index == 1 {
+						if ta, ok := ex.Tuple.(*ssa.TypeAssert); ok && ta.CommaOk && nsre != nil && types.Identical(ta.AssertedType, nsre) {
+							tabledUsed++
+							return true
+						}
+					}
+				}
+				if !f.Pol && preOK {
+					if call, ok := f.Cond.(*ssa.Call); ok && strings.HasSuffix(kit.CalleeName(call), ".hasServerError") && nsreOnlyRound(fn, facts) {
+						tabledUsed++
+						return true
+					}
+				}
+			}
+			// (a) counter-bounded: this edge is the false edge of "counter > K"
+			if len(from.Instrs) > 0 {
+				if iff, ok := from.Instrs[len(from.Instrs)-1].(*ssa.If); ok && from.Succs[1] == to && from.Succs[0] != to {
+					if cmp, ok := kit.CanonCmp(iff.Cond, true); ok && cmp.Op == token.GTR && !cmp.Bytes {
+						if k, okk := kit.ConstInt(cmp.Y); okk && k <= 1 {
+							if inc := counterIncrement(cmp.X); inc != nil && waitBlocks[from.Succs[0]] {
+								// every way from this edge back to the test passes the increment
+								e := kit.PathFromBlock(to, kit.PathQuery{
+									Target: func(in ssa.Instruction) bool { return in == ssa.Instruction(iff) },
+									Stop:   func(in ssa.Instruction) bool { return in == inc },
+								})
+								if e == nil {
+									counterUsed++
+									return true
+								}
+							}
+						}
+					}
+				}
+			}
+			return false
+		}
+		cyc := kit.FindCycle(fn, func(b *ssa.BasicBlock) bool { return waitBlocks[b] }, removedEdge)
+		if cyc != nil {
+			var parts []string
+			for _, b := range cyc {
+				parts = append(parts, p.Pos(firstPos(b)))
+			}
+			c.Bad(fn, "waitless-cycle", firstPos(cyc[len(cyc)-1]), "retry loop has a cycle with neither a back-off wait nor a bounded retry counter: attempts against a failing cluster are not separated by waits",
+				"cycle through "+strings.Join(dedup(parts), " -> "))
+		} else {
+			c.OK(fn, "waitless-cycle", fn.Pos(), fmt.Sprintf("no waitless cycle (%d wait blocks removed, %d counter-bounded edges, %d tabled NSRE edges)", len(waitBlocks), counterUsed, tabledUsed))
+		}
+	}
 }
